@@ -166,6 +166,10 @@ func runPace(k paceCase) paceOutcome {
 	if k.Dev == "cardsec-key" || k.Dev2 == "cardsec-key" {
 		o.Personality = chipsim.PersonalityByName("cam-no-key")
 	}
+	if (k.Dev == "" || k.Dev == "none") && k.Seed%3 == 0 {
+		// a conforming chip is free in its BER length forms: two-octet lengths in every object of the 7C templates
+		o.Personality.FixedWidthLengths = true
+	}
 	if k.Dev == "ecad" && strings.HasPrefix(k.DevForm, "pad-") {
 		// the chip itself sends genuine chip authentication data under a malformed padding: an altered ECAD all the same
 		o.Personality.CAMPadding = strings.TrimPrefix(k.DevForm, "pad-")
@@ -352,6 +356,12 @@ func C04(c *core.Ctx) {
 	} else if r2.OK {
 		core.Infra("MC_Pace_noecho: expected the reflection counterexample to FailClosed, found none")
 	}
+	// the selection loop keeping the domain parameters of the last usable entry must violate Coupled
+	if r3, err := c.TLC(core.TLCOpts{Module: "MC_Pace", Cfg: "MC_Pace_paramsoflast.cfg", Workers: 2}); err != nil {
+		core.Infra("%v", err)
+	} else if r3.OK {
+		core.Infra("MC_Pace_paramsoflast: expected CoupledInv to be violated (protocol of one entry, parameter id of another), found no error")
+	}
 	spec := map[string]row{}
 	for _, rw := range rows {
 		spec[rw.mapping+"/"+rw.dev+"/"+rw.dev2] = rw
@@ -489,10 +499,13 @@ func c04Selection(c *core.Ctx) {
 	universe := []entry{
 		{"ecdh-gm-3des", chipsim.PaceInfoSpec{OID: chipsim.OIDPaceEcdhGm3Des, ParamID: 13}, true},
 		{"ecdh-gm-aes256", chipsim.PaceInfoSpec{OID: chipsim.OIDPaceEcdhGmAes256, ParamID: 13}, true},
+		// supported entries on OTHER curves: protocol and domain parameters must come from one and the same entry
+		{"ecdh-gm-aes128-p12", chipsim.PaceInfoSpec{OID: chipsim.OIDPaceEcdhGmAes128, ParamID: 12}, true},
+		{"ecdh-gm-aes192-p16", chipsim.PaceInfoSpec{OID: chipsim.OIDPaceEcdhGmAes192, ParamID: 16}, true},
 		{"dh-gm-aes256", chipsim.PaceInfoSpec{OID: "0.4.0.127.0.7.2.2.4.1.4", ParamID: 0}, false},
 		{"dh-im-aes128", chipsim.PaceInfoSpec{OID: "0.4.0.127.0.7.2.2.4.3.2", ParamID: 1}, false},
-		{"ecdh-im-aes256", chipsim.PaceInfoSpec{OID: "0.4.0.127.0.7.2.2.4.4.4", ParamID: 13}, false},
-		{"unknown-oid", chipsim.PaceInfoSpec{OID: "0.4.0.127.0.7.2.2.4.9.9", ParamID: 13}, false},
+		{"ecdh-im-aes256", chipsim.PaceInfoSpec{OID: "0.4.0.127.0.7.2.2.4.4.4", ParamID: 15}, false},
+		{"unknown-oid", chipsim.PaceInfoSpec{OID: "0.4.0.127.0.7.2.2.4.9.9", ParamID: 17}, false},
 		{"dh-gm-aes128-modp", chipsim.PaceInfoSpec{OID: "0.4.0.127.0.7.2.2.4.1.2", ParamID: 1}, false},
 	}
 	for mask := 1; mask < 1<<len(universe); mask++ {
@@ -513,7 +526,7 @@ func c04Selection(c *core.Ctx) {
 		if len(sup) == 0 {
 			continue // nothing supported advertised: failure is allowed
 		}
-		if !c.Thorough() && mask%3 != 0 {
+		if !c.Thorough() && mask%5 != int(c.Seed)%5 {
 			continue
 		}
 		// EF.CardAccess is a SET: supported entries first (0), unsupported ones first (1), shuffled (seed)
